@@ -458,6 +458,110 @@ func genC06(rt *rapid.T) c06Case {
 	return c
 }
 
+// ---- a local WriteUpdate at the very instant the keepalive timer fires
+
+// The session is Established at virtual time 0 with hold time Hold, so corebgp's keepalive
+// timer fires at Hold/3, 2 Hold/3, ... At each of the first len(AfterUs) instants a plugin
+// goroutine calls WriteUpdate a drawn number of microseconds into the (slowed down) write of
+// the timer's KEEPALIVE; the remote answers with a KEEPALIVE of its own each time. Whatever
+// the interleaving of the two writes and of the timer's re-arming, corebgp never stays
+// silent for longer than Hold/3 (+ slack) afterwards either.
+type c06Tick struct {
+	Hold    int     `json:"hold"`
+	Out     bool    `json:"out"`
+	SpinUs  int64   `json:"spin_us"`
+	AfterUs []int64 `json:"after_us"`
+}
+
+func c06TickProp(t *testing.T, r *hx.Run, sub string) func(c c06Tick) hx.Verdict {
+	return func(c c06Tick) hx.Verdict {
+		r.SetCurrent(sub, c)
+		H := time.Duration(c.Hold) * time.Second
+		v := hx.Verdict{Class: fmt.Sprintf("H=%v/ticks=%d", H, len(c.AfterUs))}
+		v.NT = fmt.Sprintf("%+v", c)
+		p := basePeer(c.Out)
+		p.Hold = c.Hold
+		var dev *hx.Dev
+		fail := func(key, f string, a ...any) {
+			if dev == nil {
+				dev = hx.Devf(key, f, a...)
+			}
+		}
+		o, serr := world.Single(t, "10.0.0.1", p, c.Out, nil, func(w *world.World, conn *memnet.Conn) {
+			world.Handshake(w, p, conn, uint16(c.Hold), 0x0a000002)
+			if w.Sessions(p.Remote) != 1 {
+				fail("setup", "session did not establish")
+				return
+			}
+			w.Net.SetWriteSpin(c.SpinUs)
+			for k, after := range c.AfterUs {
+				time.Sleep(H / 3) // wakes at the instant the keepalive timer fires
+				memnet.Spin(after)
+				if _, err := w.WriteUpdate(p.Remote, 0, 1, taggedUpdate(uint32(0x7A000000+k), 6)); err != nil {
+					fail("write-failed", "WriteUpdate on the Established session returned %v", err)
+					return
+				}
+				conn.RemoteSend(wire.Keepalive(), nil)
+				w.Settle()
+			}
+			w.Net.SetWriteSpin(0)
+			for i := 0; i < 4; i++ {
+				time.Sleep(H / 3)
+				w.Settle()
+				conn.RemoteSend(wire.Keepalive(), nil)
+				w.Settle()
+			}
+			end := w.Net.Since()
+			st := conn.Snapshot()
+			msgs, perr := wire.ParseStream(st.Bytes())
+			if perr != nil {
+				fail("malformed-output", "%v", perr)
+				return
+			}
+			if st.LocalClosed {
+				fail("session-ended", "the session ended although the remote sent a KEEPALIVE every %v (last message type %v)", H/3, firstType(msgs[max(len(msgs)-1, 0):]))
+				return
+			}
+			var ends []int
+			var ats []time.Duration
+			off := 0
+			for _, wr := range st.Writes {
+				if wr.Failed {
+					continue
+				}
+				off += len(wr.Data)
+				ends = append(ends, off)
+				ats = append(ats, wr.At)
+			}
+			slack := max(H/30, 100*time.Millisecond)
+			bound := H/3 + slack
+			prev := time.Duration(-1)
+			for _, m := range msgs {
+				at := ats[sort.SearchInts(ends, m.Off+wire.HeaderLen+len(m.Body))]
+				if m.Type == wire.TypeOpen {
+					continue
+				}
+				if prev >= 0 && at-prev > bound {
+					fail("keepalive-gap", "H=%v: %v passed between consecutive messages sent by corebgp (at %v and %v), bound %v; WriteUpdate was called at the first %d keepalive instants", H, at-prev, prev, at, bound, len(c.AfterUs))
+					return
+				}
+				prev = at
+			}
+			if prev >= 0 && end-prev > bound {
+				fail("keepalive-gap", "H=%v: nothing sent by corebgp between %v and the end of the observation at %v, bound %v", H, prev, end, bound)
+			}
+		})
+		if serr != nil {
+			fail("setup", "%v", serr)
+		}
+		if b := o.Bad(); b != "" {
+			fail("wedge", "%s", b)
+		}
+		v.Dev = dev
+		return v
+	}
+}
+
 func TestC06(t *testing.T) {
 	r := hx.Start(t, "C06")
 	defer r.Finish(t)
@@ -489,4 +593,11 @@ func TestC06(t *testing.T) {
 	}), c06Prop(t, r, "negotiation_sweep"))
 
 	hx.Rapid(r, t, "generated", r.N(8000, 80000), genC06, c06Prop(t, r, "generated"))
+	hx.Rapid(r, t, "write_at_keepalive_instant", r.N(150, 2000), func(rt *rapid.T) c06Tick {
+		c := c06Tick{Hold: pick(rt, "hold", 3, 6, 9, 30), Out: rapid.Bool().Draw(rt, "out"), SpinUs: pick[int64](rt, "spin", 100, 300)}
+		for i, n := 0, rapid.IntRange(1, 5).Draw(rt, "nticks"); i < n; i++ {
+			c.AfterUs = append(c.AfterUs, pick[int64](rt, "after", 0, 5, 20, 50, 120, 250))
+		}
+		return c
+	}, c06TickProp(t, r, "write_at_keepalive_instant"))
 }
